@@ -81,13 +81,13 @@ PROPS = {
     "C06": {
         "title": "skip() consumes exactly one item",
         "bounds": "structure: ALL byte strings of length N over the 13-letter alphabet of one-byte items (00 20 80 81 82 83 9f a0 a1 bf c1 f6 ff), N = 1..5 (quick) / ..7 (thorough) "
-                  "in the no-alloc build, N = 1..3 (quick) / 4 (thorough) in the alloc build, vs the independent item-boundary parser R3, incl. every strict prefix and arbitrary suffix; "
+                  "in the no-alloc build, N = 1..2 (quick) / ..4 (thorough, each capped at 2 h) in the alloc build (explicit Vec stack: ~10x heavier), vs the independent item-boundary parser R3, incl. every strict prefix and arbitrary suffix; "
                   "leaf accessors replaced by one-byte models proven equivalent on that domain (c06_lm_*); heads and strings: one item per concrete initial byte with the real accessors",
         "outside": "more than N one-byte items; multi-byte heads inside nested containers (compositional: lm_equiv + heads group); depth-10^4 chains; alloc-build stack logic beyond N",
         "assumptions": ["leaf models (each proven equivalent to the real accessor on the asserted domain)", "from_utf8 modelled as always-valid in the text-head harnesses (boundaries, not validation)"],
         "groups": [core({"quick": ["c06::c06_lm", "c06::c06_a1", "c06_gen::q::"], "thorough": ["c06::c06_", "c06_gen::"]}),
-                   core({"quick": ["c06::c06_a1_n1", "c06::c06_a1_n2", "c06::c06_a1_n3", "c06_gen::q::"], "thorough": ["c06::c06_a1_n", "c06_gen::"]}, features=("half", "alloc"),
-                        timeout={"quick": 1500, "thorough": 5400})],
+                   core({"quick": ["c06::c06_a1_n1", "c06::c06_a1_n2", "c06_gen::q::"], "thorough": ["c06::c06_a1_n1", "c06::c06_a1_n2", "c06::c06_a1_n3", "c06::c06_a1_n4", "c06_gen::"]}, features=("half", "alloc"),
+                        timeout={"quick": 1500, "thorough": 7200})],
     },
     "C07": {
         "title": "CborLen is exact",
